@@ -4,7 +4,7 @@ Everything registered here is an *assumption* (trusted), reported through eng.us
 """
 import z3
 from . import types as ty
-from .values import (I, B, VInt, VBool, VNum, VStr, VCls, VNone, VRef, VTuple, VFunc, VView, Unsupported)
+from .values import (I, B, VInt, VBool, VNum, VStr, VCls, VNone, VRef, VTuple, VFunc, VView, VRecord, Unsupported)
 from .heap import PyRaise
 
 
@@ -83,7 +83,124 @@ def ext_random_shuffle(eng, selfv, args, kwargs):
     return VNone()
 
 
+# ------------------------------------------------------------------ pandas / numpy (assumed contracts, DESIGN 5/C11)
+DF_POS = ty.parse('list[tuple[int,int,int]]')
+DF_COLS = ty.parse('dict[str,list[any]]')
+LIST_ANY = ty.parse('list[any]')
+PANDAS = ('pandas: DataFrame({"pos": L}) copies L into column pos; df[c] = seq stores a copy of seq (element i in row i, '
+          'length must equal the row count) leaving other columns and the row set untouched; c in df is column '
+          'membership; drop(columns=[c], inplace=True) removes only c; iloc[i] is row i with all columns')
+
+
+def _as_list_any(eng, v):
+    if isinstance(v, VRef) and isinstance(v.typ, ty.TList):
+        return v
+    if isinstance(v, VRef) and v.typ == ty.ANY:
+        return VRef(v.term, LIST_ANY, v.st)
+    raise Unsupported('sequence expected')
+
+
+def ext_dataframe_new(eng, selfv, args, kwargs):
+    eng.used_assumption(PANDAS)
+    rec = args[0]
+    if not hasattr(rec, 'items') or set(rec.items) != {'pos'}:
+        raise Unsupported('DataFrame(...) of this shape')
+    df = eng.alloc(ty.TRef('DataFrame'), cls=z3.IntVal(eng.cls_id('DataFrame')))
+    eng.write_field(df, 'pos', eng.list_copy(rec.items['pos']))
+    eng.write_field(df, 'cols', eng.new_dict(DF_COLS))
+    return df
+
+
+def ext_df_getitem(eng, df, args, kwargs):
+    eng.used_assumption(PANDAS)
+    key = args[0]
+    if isinstance(key, VStr) and key.lit == 'pos':
+        return eng.read_field(df, 'pos', DF_POS)
+    cols = eng.read_field(df, 'cols', DF_COLS)
+    eng.oblige_safe('KeyError', eng.dict_has(cols, key), 'df-column')
+    return eng.dict_get(cols, key)
+
+
+def ext_df_setitem(eng, df, args, kwargs):
+    eng.used_assumption(PANDAS)
+    key, values = args
+    src = _as_list_any(eng, values)
+    pos = eng.read_field(df, 'pos', DF_POS)
+    eng.oblige_safe('ValueError', eng.llen(src) == eng.llen(pos), 'df-column-length')
+    if src.typ.key != LIST_ANY.key:
+        raise Unsupported(f'column of element type {src.typ.elem}')
+    col = eng.list_copy(src, LIST_ANY)
+    cols = eng.read_field(df, 'cols', DF_COLS)
+    eng.dict_set(cols, key, col)
+    return VNone()
+
+
+def ext_df_contains(eng, df, args, kwargs):
+    eng.used_assumption(PANDAS)
+    key = args[0]
+    cols = eng.read_field(df, 'cols', DF_COLS)
+    return VBool(z3.Or(key.term == eng.ctx.strid('pos'), eng.dict_has(cols, key)))
+
+
+def ext_df_drop(eng, df, args, kwargs):
+    eng.used_assumption(PANDAS)
+    names = kwargs.get('columns')
+    if not (isinstance(names, VRef) and isinstance(names.typ, ty.TList)):
+        raise Unsupported('drop(columns=...) of this shape')
+    eng.oblige_safe('drop-one', eng.llen(names) == 1, 'drop of exactly one column')
+    name = eng.list_get(names, z3.IntVal(0))
+    cols = eng.read_field(df, 'cols', DF_COLS)
+    eng.oblige_safe('KeyError', eng.dict_has(cols, name), 'drop-column')
+    eng.dict_del(cols, name)
+    return VNone()
+
+
+def ext_df_iloc(eng, df, args, kwargs):
+    eng.used_assumption(PANDAS)
+    i = eng.arith_term(args[0])
+    pos = eng.read_field(df, 'pos', DF_POS)
+    eng.oblige_safe('IndexError', z3.And(i >= 0, i < eng.llen(pos)), 'iloc')
+    row = eng.alloc(ty.TRef('Row'), cls=z3.IntVal(eng.cls_id('Row')))
+    eng.write_field(row, 'df', df)
+    eng.write_field(row, 'idx', VInt(i))
+    return row
+
+
+def ext_np_copy(eng, selfv, args, kwargs):
+    eng.used_assumption('numpy.copy(a) returns a fresh array with the same elements')
+    return eng.list_copy(_as_list_any(eng, args[0]), LIST_ANY)
+
+
+def ext_isinstance(eng, selfv, args, kwargs):
+    v, c = args
+    f = z3.Function('isinstance_' + c.name.replace('.', '_'), I, B)
+    return VBool(f(v.term))
+
+
+def ext_any_call(eng, f, args, kwargs):
+    eng.used_assumption('user-supplied callables (generators, score / agent functions) are pure functions of their arguments')
+    terms = []
+    for a in args:
+        if isinstance(a, VTuple):
+            terms.append(eng.box_tuple(a))
+        elif hasattr(a, 'term'):
+            terms.append(a.term if a.term.sort() == I else eng.coerce(a, ty.ANY))
+        else:
+            raise Unsupported('argument of a user callable')
+    fn = z3.Function(f'call_res{len(terms)}', *([I] * (len(terms) + 1)), I)
+    return VRef(fn(f.term, *terms), ty.ANY)
+
+
 EXTERNALS = {
+    'pandas.DataFrame': ext_dataframe_new,
+    'DataFrame.__getitem__': ext_df_getitem,
+    'DataFrame.__setitem__': ext_df_setitem,
+    'DataFrame.__contains__': ext_df_contains,
+    'DataFrame.drop': ext_df_drop,
+    'DataFrame.iloc.__getitem__': ext_df_iloc,
+    'numpy.copy': ext_np_copy,
+    'isinstance': ext_isinstance,
+    'any.__call__': ext_any_call,
     'Random.choice': ext_random_choice,
     'Random.shuffle': ext_random_shuffle,
     'Logger.info': ext_logger_noop,
